@@ -94,3 +94,71 @@ pub fn greedy(w: &[Vec<Option<i64>>], own: &[i64]) -> i64 {
     }
     s
 }
+
+/// Exact optimum for sparse problems of any width: the bipartite graph of present pairs is split into connected
+/// components, each solved by the subset DP (queries without any present pair stay unmatched). `None` when a component
+/// has more than `max_comp` tracks.
+pub fn best_assignment_sparse(w: &[Vec<Option<i64>>], own: &[i64], max_comp: usize) -> Option<(i64, Vec<Option<usize>>)> {
+    let n = w.len();
+    if n == 0 {
+        return Some((0, vec![]));
+    }
+    let m = w[0].len();
+    // union-find over n + m nodes
+    let mut parent: Vec<usize> = (0..n + m).collect();
+    fn find(p: &mut Vec<usize>, x: usize) -> usize {
+        let mut r = x;
+        while p[r] != r {
+            r = p[r];
+        }
+        let mut c = x;
+        while p[c] != r {
+            let nx = p[c];
+            p[c] = r;
+            c = nx;
+        }
+        r
+    }
+    for i in 0..n {
+        for j in 0..m {
+            if w[i][j].is_some() {
+                let (a, b) = (find(&mut parent, i), find(&mut parent, n + j));
+                if a != b {
+                    parent[a] = b;
+                }
+            }
+        }
+    }
+    let mut comps: std::collections::BTreeMap<usize, (Vec<usize>, Vec<usize>)> = std::collections::BTreeMap::new();
+    for i in 0..n {
+        let r = find(&mut parent, i);
+        comps.entry(r).or_default().0.push(i);
+    }
+    for j in 0..m {
+        let r = find(&mut parent, n + j);
+        if let Some(c) = comps.get_mut(&r) {
+            c.1.push(j);
+        }
+    }
+    let mut total = 0i64;
+    let mut asg: Vec<Option<usize>> = vec![None; n];
+    for (_, (rows, cols)) in comps {
+        if cols.is_empty() {
+            for i in rows {
+                total += own[i];
+            }
+            continue;
+        }
+        if cols.len() > max_comp {
+            return None;
+        }
+        let sw: Vec<Vec<Option<i64>>> = rows.iter().map(|i| cols.iter().map(|j| w[*i][*j]).collect()).collect();
+        let so: Vec<i64> = rows.iter().map(|i| own[*i]).collect();
+        let (v, a) = best_assignment(&sw, &so);
+        total += v;
+        for (k, i) in rows.iter().enumerate() {
+            asg[*i] = a[k].map(|c| cols[c]);
+        }
+    }
+    Some((total, asg))
+}
